@@ -900,7 +900,7 @@ def getrandbytes(rng, count):
         i = 0
         while i < count:
             yield value & 0xFF
-            value >>= 3
+            value >>= 8
             i += 1
 
     return bytes(helper())
